@@ -165,6 +165,10 @@ type Config struct {
 	StopAfterViolations int
 	// Serial forces one worker (for bodies that are not goroutine safe).
 	Serial bool
+	// SplitDepth: when the check runs sharded over processes, executions whose
+	// prefix is at least this long belong to the shard hash(prefix[:SplitDepth]) % n
+	// (default 4). Shorter prefixes are run by every shard and counted by shard 0.
+	SplitDepth int
 }
 
 // Body is a deterministic function of the choice sequence.
@@ -188,6 +192,8 @@ type PartStats struct {
 	CapsHit        []string `json:"caps_hit,omitempty"`
 	WallS          float64  `json:"wall_s"`
 	Outcomes       int64    `json:"distinct_outcomes,omitempty"`
+	stateHashes    []uint64
+	StateHashes    []uint64 `json:"state_hashes,omitempty"` // only in shard partial files
 }
 
 type work struct {
@@ -243,6 +249,22 @@ func (r *Report) Explore(cfg Config, body Body) *PartStats {
 	if cfg.StopAfterViolations == 0 {
 		cfg.StopAfterViolations = 8
 	}
+	shardI, shardN := Shard()
+	if cfg.SplitDepth == 0 {
+		cfg.SplitDepth = 4
+	}
+	if shardN > 1 {
+		workers = 1
+	}
+	owner := func(prefix []int) int {
+		if shardN <= 1 {
+			return 0
+		}
+		if len(prefix) < cfg.SplitDepth {
+			return -1 // shared
+		}
+		return int(hash64(fmt.Sprint(prefix[:cfg.SplitDepth])) % uint64(shardN))
+	}
 	var seen *stateSet
 	if cfg.Prune {
 		seen = &stateSet{m: map[uint64]struct{}{}}
@@ -282,8 +304,16 @@ func (r *Report) Explore(cfg Config, body Body) *PartStats {
 			mu.Unlock()
 
 			x, out, crashed := runOne(body, w.prefix, seen)
-			n := atomic.AddInt64(&evals, 1)
-			atomic.AddInt64(&trans, int64(x.steps))
+			own := owner(w.prefix)
+			counted := own == shardI || (own == -1 && shardI == 0) || shardN <= 1
+			var n int64
+			if counted {
+				n = atomic.AddInt64(&evals, 1)
+				atomic.AddInt64(&trans, int64(x.steps))
+			} else {
+				out.Violation = ""
+				out.Trivial = true
+			}
 			if x.pruned {
 				atomic.AddInt64(&pruned, 1)
 			}
@@ -295,10 +325,10 @@ func (r *Report) Explore(cfg Config, body Body) *PartStats {
 			if !out.Trivial {
 				nontriv.add(hash64(fmt.Sprint(x.choices)))
 			}
-			if !cfg.Prune && out.Obs != "" {
+			if !cfg.Prune && out.Obs != "" && counted {
 				states.add(hash64(out.Obs))
 			}
-			if cfg.SelfCheckEvery > 0 && n%cfg.SelfCheckEvery == 0 && !x.pruned && !cfg.Prune {
+			if counted && cfg.SelfCheckEvery > 0 && n%cfg.SelfCheckEvery == 0 && !x.pruned && !cfg.Prune {
 				_, out2, _ := runOne(body, x.choices, nil)
 				if out2.Obs == out.Obs && out2.Violation == out.Violation {
 					atomic.AddInt64(&selfc, 1)
@@ -326,7 +356,7 @@ func (r *Report) Explore(cfg Config, body Body) *PartStats {
 					mu.Unlock()
 				}
 			}
-			if r.wantSample() && !out.Trivial && len(x.hist) > 0 {
+			if counted && r.wantSample() && !out.Trivial && len(x.hist) > 0 {
 				r.AddSample(map[string]any{"part": cfg.Name, "choices": x.choices, "history": x.hist})
 			}
 
@@ -345,6 +375,9 @@ func (r *Report) Explore(cfg Config, body Body) *PartStats {
 							np := make([]int, i+1)
 							copy(np, x.choices[:i])
 							np[i] = alt
+							if o := owner(np); o != -1 && o != shardI {
+								continue
+							}
 							kids = append(kids, work{np, cost})
 						}
 					}
@@ -355,7 +388,9 @@ func (r *Report) Explore(cfg Config, body Body) *PartStats {
 			if len(x.choices) > maxDepth {
 				maxDepth = len(x.choices)
 			}
-			cps += int64(len(x.pts) - min(len(w.prefix), len(x.pts)))
+			if counted {
+				cps += int64(len(x.pts) - min(len(w.prefix), len(x.pts)))
+			}
 			// push in reverse so that lower alternatives/earlier points are popped last->first DFS order
 			for i := len(kids) - 1; i >= 0; i-- {
 				stack = append(stack, kids[i])
@@ -388,6 +423,11 @@ func (r *Report) Explore(cfg Config, body Body) *PartStats {
 	ps.SelfChecked = selfc
 	ps.Nondeterminism = nondet
 	ps.States = int64(states.len())
+	if shardN > 1 && states.len() <= 4000000 {
+		for h := range states.m {
+			ps.stateHashes = append(ps.stateHashes, h)
+		}
+	}
 	ps.Outcomes = int64(outcomes.len())
 	ps.Distinct = int64(nontriv.len())
 	ps.Exhaustive = len(caps) == 0
@@ -545,15 +585,16 @@ type Report struct {
 	Root     string // /verif
 	start    time.Time
 
-	mu          sync.Mutex
-	parts       []*PartStats
-	violations  []*Violation
-	samples     []any
-	maxSamples  int
-	notes       []string
-	assumptions []string
-	extra       map[string]any
-	inconcl     []string
+	mu            sync.Mutex
+	parts         []*PartStats
+	violations    []*Violation
+	samples       []any
+	maxSamples    int
+	notes         []string
+	assumptions   []string
+	extra         map[string]any
+	inconcl       []string
+	shardFailures []string
 }
 
 // NewReport starts a report. root is the /verif directory.
@@ -596,7 +637,11 @@ func (r *Report) Notef(f string, a ...any) {
 }
 
 // Assume records an assumption / trusted base item.
-func (r *Report) Assume(s string) { r.mu.Lock(); r.assumptions = append(r.assumptions, s); r.mu.Unlock() }
+func (r *Report) Assume(s string) {
+	r.mu.Lock()
+	r.assumptions = append(r.assumptions, s)
+	r.mu.Unlock()
+}
 
 // Extra sets an extra coverage key.
 func (r *Report) Extra(k string, v any) { r.mu.Lock(); r.extra[k] = v; r.mu.Unlock() }
@@ -614,8 +659,9 @@ func (r *Report) addViolation(part, key, msg string, x *X, stack string, body Bo
 		if k == "" {
 			k = out.Violation
 		}
-		if out.Violation != "" && k == key {
-			same++
+		_ = k
+		if out.Violation != "" {
+			same++ // the same choice sequence violates again (its class may differ when the implementation iterates a map)
 		}
 	}
 	v.Replays = same
@@ -675,6 +721,9 @@ func KnownKeys(root, property string) map[string]string {
 // Finish writes evidence and replay files, prints KNOWN-FINDING / VIOLATION
 // lines and returns the exit code.
 func (r *Report) Finish() int {
+	if _, n := Shard(); n > 1 {
+		return r.writePartial()
+	}
 	known := KnownKeys(r.Root, r.Property)
 	sort.Slice(r.violations, func(i, j int) bool { return r.violations[i].Key < r.violations[j].Key })
 	replayDir := filepath.Join(r.Root, "replays", r.Property)
@@ -798,4 +847,10 @@ func min(a, b int) int {
 		return a
 	}
 	return b
+}
+
+// Replay re-executes one recorded choice sequence without the explorer.
+func Replay(body Body, choices []int) (Outcome, []string) {
+	x, out, _ := runOne(body, choices, nil)
+	return out, x.History()
 }
